@@ -344,6 +344,7 @@ static void forked_load(const unsigned char* buf, int n, Str* out, int with_orac
   Str err = {0};
   while ((k = read(ef[0], tmp, sizeof tmp)) > 0) { if (err.n < 65536) s_put(&err, tmp, (size_t)k); }
   close(pf[0]); close(ef[0]);
+  if (out->s) for (size_t i = start; i < out->n; i++) if (out->s[i] == '\n' || out->s[i] == '\r') out->s[i] = ' ';
   int st = 0;
   waitpid(pid, &st, 0);
   int crashed = (WIFSIGNALED(st)) || (WIFEXITED(st) && WEXITSTATUS(st) != 0);
